@@ -491,6 +491,9 @@ impl Property for C16 {
             Some((c, d)) => Verdict::fail(format!("arm-global-then-outside-local|{}", c), d),
         }
     }
+    fn fuzz_runs(&self, _tier: Tier) -> u64 {
+        40_000
+    }
     fn random_cases(&self, tier: Tier) -> u64 {
         tier.pick(40_000, 500_000)
     }
